@@ -15,6 +15,7 @@
   Mathlib-free (executed by the driver).
 -/
 import PyTough.Model.Fixed
+import PyTough.Model.Names
 import PyTough.Gen.Sections
 /-- `c!"abc"` is the character list `['a','b','c']` (string literals are opaque to the kernel, character
     lists are not: everything the proofs evaluate is written with this macro) -/
@@ -129,24 +130,9 @@ def keywordOf (line : Str) : Str := strip (slice line 0 5)
 
 /-! ### block names: TOUGH2 reads them as (A3, I2) -/
 
-/-- `fix_blockname(name)` (indexing a short name raises IndexError, with `and` short-circuiting) -/
-def fixBlockname (name : Str) : Except Exc Str :=
-  match name[2]? with
-  | none => .error .indexError
-  | some c2 =>
-    if !isDigit c2 then .ok name else
-    match name[4]? with
-    | none => .error .indexError
-    | some c4 =>
-      if !isDigit c4 then .ok name else
-      match name[3]? with
-      | none => .error .indexError
-      | some c3 => if c3 = ' ' then .ok (slice name 0 3 ++ ['0'] ++ slice name 4 5) else .ok name
-
-/-- `unfix_blockname(name)` -/
-def unfixBlockname (name : Str) : Str :=
-  let t := slice name 3 5
-  if !t.isEmpty && t.all isDigit then rjust (slice name 0 3) 3 ++ rjust (natDigits (digitsVal t)) 2 else name
+/-- `fix_blockname(name)` / `unfix_blockname(name)`: the models (and their theory) of `Model/Names.lean` -/
+abbrev fixBlockname (name : Str) : Except Exc Str := Model.Names.fixBlockname name
+abbrev unfixBlockname (name : Str) : Str := Model.Names.unfixBlockname name
 
 /-! ### records -/
 
